@@ -7,6 +7,7 @@
    compare_path, bottom directory ""), which every state reachable from the zero Validator satisfies.
    Folding it over a list of changes equals run_validator, so validator_accepts_iff_spec transfers. *)
 From Coq Require Import List NArith ZArith Bool Lia Sorting.Sorted.
+From FS Require Model.Stat.
 From FS Require Import Sx Model.Path Model.Validator Src.Prims Proofs.Lex Proofs.PathP Proofs.ValidatorP.
 From FS Require Proofs.Src.ComparePathEq Proofs.Src.SortSearchP Proofs.Src.PrimsP.
 From FSGen Require SrcFns.
@@ -25,7 +26,7 @@ Definition hc_pred (l : list parent) (d : list N) (i : Z) : option bool :=
   | Some c => Some (c <=? 0)%Z
   end.
 
-Definition hc_compact (l0 : list parent) (kind : Z) (p : list N) (fi : Prims.FileInfo) : option (SrcFns.Validator * Prims.error) :=
+Definition hc_compact (l0 : list parent) (kind : Z) (p : list N) (fi : Prims.FileInfo Stat.stat) : option (SrcFns.Validator * Prims.error) :=
   let l := norm l0 in
   if negb (Prims.bytes_eqb p (Prims.filepath_Clean p)) then Some (mk l, Prims.some_error) else
   if Prims.filepath_IsAbs p then Some (mk l, Prims.some_error) else
@@ -71,10 +72,11 @@ Definition abs_state (v : SrcFns.Validator) : list ventry := absl (norm (SrcFns.
 Definition desc (stk : list ventry) : Prop :=
   StronglySorted (fun a b => compare_path (fst b) (fst a) = Lt) stk.
 Definition vinv (stk : list ventry) : Prop := desc stk /\ exists r l0, stk = r ++ [([], l0)].
-Definition item_of (kind : Z) (p : list N) (fi : Prims.FileInfo) : vitem :=
+Definition fi_dir (b : bool) : Prims.FileInfo Stat.stat := {| Prims.fi_IsDir := b; Prims.fi_Mode := 0; Prims.fi_Sys := None |}.
+Definition item_of (kind : Z) (p : list N) (fi : Prims.FileInfo Stat.stat) : vitem :=
   {| vkind := Z.to_N kind; vpath := p; visdir := Prims.fi_IsDir fi |}.
 
-Definition hc_tail (l : list parent) (kind : Z) (fi : Prims.FileInfo) (d b : list N) : option (SrcFns.Validator * Prims.error) :=
+Definition hc_tail (l : list parent) (kind : Z) (fi : Prims.FileInfo Stat.stat) (d b : list N) : option (SrcFns.Validator * Prims.error) :=
   match Prims.sort_Search (Prims.slen l) (hc_pred l d) with
   | None => None
   | Some k =>
@@ -376,20 +378,20 @@ Fixpoint run_go (v : SrcFns.Validator) (its : list vitem) (i : nat) : option (op
   match its with
   | [] => Some None
   | it :: r =>
-    match SrcFns.Validator_HandleChange v (Z.of_N (vkind it)) (vpath it) {| Prims.fi_IsDir := visdir it |} None with
+    match SrcFns.Validator_HandleChange v (Z.of_N (vkind it)) (vpath it) (fi_dir (visdir it)) None with
     | None => None                                  (* no result: out of fuel *)
     | Some (v', None) => run_go v' r (S i)
     | Some (_, Some _) => Some (Some i)
     end
   end.
 
-Lemma item_of_it : forall it, item_of (Z.of_N (vkind it)) (vpath it) {| Prims.fi_IsDir := visdir it |} = it.
+Lemma item_of_it : forall it, item_of (Z.of_N (vkind it)) (vpath it) (fi_dir (visdir it)) = it.
 Proof. intros [k p dflag]. unfold item_of. cbn. now rewrite N2Z.id. Qed.
 
 Lemma run_go_gen : forall its v i, good (abs_state v) -> run_go v its i = Some (vrun (abs_state v) its i).
 Proof.
   induction its as [|it r IH]; intros v i Hg; [reflexivity|]. cbn [run_go vrun].
-  pose proof (HandleChange_src_eq v (Z.of_N (vkind it)) (vpath it) {| Prims.fi_IsDir := visdir it |} (good_vinv _ Hg)) as H.
+  pose proof (HandleChange_src_eq v (Z.of_N (vkind it)) (vpath it) (fi_dir (visdir it)) (good_vinv _ Hg)) as H.
   rewrite item_of_it in H.
   destruct (SrcFns.Validator_HandleChange v _ _ _ None) as [[v' e]|]; [|contradiction].
   destruct (vstep (abs_state v) it) as [stk'|] eqn:Es.
